@@ -12,9 +12,12 @@ structure JobsWF (fs0 : Fs) (J : List Job) : Prop where
   bodyOps : ∀ j ∈ J, ∀ op ∈ j.body, op.isBody = true
   /-- "no out, or out equal to in" -/
   inplace : ∀ j ∈ J, j.out = none ∨ j.out = some j.src
+  /-- no in path is a symlink in its last component (single files: `symlink_in_replaces_link`) -/
+  noLink : ∀ j ∈ J, j.dst = none
 
 theorem jobOps_inplace (fs : Fs) (j : Job) (hc : (fs.get? j.src).isSome)
-    (ho : j.out = none ∨ j.out = some j.src) : jobOps fs j = inplaceOps j.src j.tmp j.body := by
+    (ho : j.out = none ∨ j.out = some j.src) :
+    jobOps fs j = inplaceOps j.early j.src j.target j.tmp j.body := by
   have hcc : fs.contains j.src = true := by simpa [Fs.contains] using hc
   rcases ho with ho | ho
   · simp [jobOps, ho, isSameFile]
@@ -57,18 +60,71 @@ theorem isSome_of_names_eq {a b : Fs} (h : a.names = b.names) (p : String) :
   rw [h] at ha
   cases hx : a.get? p <;> cases hy : b.get? p <;> simp_all
 
-/-- What is proved about a run of `runJobs` over the jobs `js ⊆ J` from directory `cur`. -/
+/-- The LAST job of the list whose source is `p` (`in` may match a file more than once: `get_glob`
+    chains the per-pattern globs without de-duplication; the later rewrite works on the result of the
+    earlier one). -/
+def lastJob (js : List Job) (p : String) : Option Job := js.reverse.find? (·.src == p)
+
+theorem lastJob_cons (j : Job) (js : List Job) (p : String) :
+    lastJob (j :: js) p = match lastJob js p with
+      | some x => some x
+      | none => if j.src == p then some j else none := by
+  simp only [lastJob, List.reverse_cons, List.find?_append]
+  cases h : List.find? (fun x => x.src == p) js.reverse with
+  | some x => simp
+  | none =>
+    cases hp : (j.src == p) <;> simp [List.find?, hp]
+
+theorem lastJob_none {js : List Job} {p : String} (h : lastJob js p = none) : ∀ j ∈ js, p ≠ j.src := by
+  intro j hj he
+  simp only [lastJob, List.find?_eq_none] at h
+  have := h j (List.mem_reverse.mpr hj)
+  simp [he] at this
+
+theorem lastJob_mem {js : List Job} {p : String} {j : Job} (h : lastJob js p = some j) : j ∈ js ∧ j.src = p := by
+  simp only [lastJob] at h
+  have h1 := List.mem_of_find?_eq_some h
+  have h2 := List.find?_some h
+  exact ⟨List.mem_reverse.mp h1, by simpa using h2⟩
+
+theorem lastJob_isSome {js : List Job} {j : Job} (hj : j ∈ js) : ∃ j', lastJob js j.src = some j' := by
+  cases h : lastJob js j.src with
+  | some x => exact ⟨x, rfl⟩
+  | none => exact absurd rfl (lastJob_none h j hj)
+
+/-- With pairwise distinct sources the last job for a source is the job itself. -/
+theorem lastJob_of_nodup : ∀ {js : List Job}, (js.map (·.src)).Nodup → ∀ {j : Job}, j ∈ js →
+    lastJob js j.src = some j := by
+  intro js
+  induction js with
+  | nil => intro _ j hj; simp at hj
+  | cons x xs ih =>
+    intro hnd j hj
+    simp only [List.map_cons, List.nodup_cons] at hnd
+    rw [lastJob_cons]
+    rcases List.mem_cons.mp hj with rfl | hj'
+    · cases h : lastJob xs j.src with
+      | none => simp
+      | some y =>
+        have := lastJob_mem h
+        exact absurd (List.mem_map.mpr ⟨y, this.1, this.2⟩) hnd.1
+    · rw [ih hnd.2 hj']
+
+/-- What is proved about a run of `runJobs` over the jobs `js ⊆ J` from directory `cur` — for ANY list
+    of in-place jobs: sources may repeat. -/
 structure MPost (fs0 : Fs) (J js : List Job) (cfg : Cfg) (plan : Plan) (cur : Fs)
     (r : Outcome × Trace) : Prop where
   whole : ∀ ev ∈ r.2, Whole fs0 J ev.2
   names : ∀ ev ∈ r.2, NamesOk fs0 J ev.2
   frame : ∀ p, (∀ j ∈ js, p ≠ j.src) → (∀ j ∈ J, p ≠ j.tmp) → ∀ ev ∈ r.2, ev.2.get? p = cur.get? p
   ok : r.1 = .ok → (final cur r.2).names = fs0.names ∧
-        ∀ j ∈ js, (final cur r.2).get? j.src = some (newContent j.body)
-  raised : ∀ i, r.1 = .raised i → cfg.cleanupWrite = true → plan (i + 1) ≠ .raise →
-        (final cur r.2).names = fs0.names
+        ∀ p j, lastJob js p = some j → (final cur r.2).get? p = some (newContent j.body)
+  raised : ∀ i, r.1 = .raised i → cfg.cleanupWrite = true → cfg.cleanupBase = true → cfg.closeInTry = true →
+        (∀ ev ∈ r.2, ev.1 ≠ "removeTemp!") → (final cur r.2).names = fs0.names
+  raisedNames : ∀ i, r.1 = .raised i → NamesOk fs0 J (final cur r.2)
   killed : ∀ i, r.1 = .killed i → NamesOk fs0 J (final cur r.2)
-  raisedAt : ∀ i, r.1 = .raised i → plan i = .raise
+  raisedAt : ∀ i, r.1 = .raised i → plan i = .raise ∨ plan i = .raiseBase
+  rmNeeds2 : ∀ ev ∈ r.2, ev.1 = "removeTemp!" → ∃ k, TwoFaults plan k
 
 theorem final_mem_or (cur : Fs) (tr : Trace) : final cur tr = cur ∨ ∃ ev ∈ tr, ev.2 = final cur tr := by
   induction tr generalizing cur with
@@ -80,27 +136,28 @@ theorem final_mem_or (cur : Fs) (tr : Trace) : final cur tr = cur ∨ ∃ ev ∈
     · exact Or.inr ⟨ev, List.mem_cons_of_mem _ hm, he⟩
 
 theorem runJobs_post (cfg : Cfg) (plan : Plan) (wf : JobsWF fs0 J) :
-    ∀ (js : List Job), (∀ j ∈ js, j ∈ J) → (js.map (·.src)).Nodup →
+    ∀ (js : List Job), (∀ j ∈ js, j ∈ J) →
     ∀ (i : Nat) (cur : Fs), Whole fs0 J cur → cur.names = fs0.names →
       MPost fs0 J js cfg plan cur (runJobs cfg plan i cur js) := by
   intro js
   induction js with
   | nil =>
-    intro _ _ i cur hw hn
+    intro _ i cur hw hn
     simp only [runJobs]
     exact {
       whole := by intro ev hm; simp at hm
       names := by intro ev hm; simp at hm
       frame := by intro p _ _ ev hm; simp at hm
-      ok := by intro _; exact ⟨by simpa [final_nil] using hn, by intro j hj; simp at hj⟩
+      ok := by intro _; exact ⟨by simpa [final_nil] using hn, by intro p j hj; simp [lastJob] at hj⟩
       raised := by intro i h; cases h
+      raisedNames := by intro i h; cases h
       killed := by intro i h; cases h
-      raisedAt := by intro i h; cases h }
+      raisedAt := by intro i h; cases h
+      rmNeeds2 := by intro ev hm; simp at hm }
   | cons j js ih =>
-    intro hsub hnd i cur hw hn
+    intro hsub i cur hw hn
     have hjJ : j ∈ J := hsub j List.mem_cons_self
     have hsub' : ∀ j' ∈ js, j' ∈ J := fun j' h => hsub j' (List.mem_cons_of_mem _ h)
-    simp only [List.map_cons, List.nodup_cons] at hnd
     -- facts about the current directory
     have hs : (cur.get? j.src).isSome := by
       rw [isSome_of_names_eq hn]; exact wf.srcExists j hjJ
@@ -112,11 +169,13 @@ theorem runJobs_post (cfg : Cfg) (plan : Plan) (wf : JobsWF fs0 J) :
       | some _ => simp [hx] at this
     have hne : j.src ≠ j.tmp := by
       intro he; rw [he, h0] at hs; cases hs
+    have htgt : j.target = j.src := by simp [Job.target, wf.noLink j hjJ]
     have hops := jobOps_inplace cur j hs (wf.inplace j hjJ)
-    have P := exec_inplace (fs0 := cur) (src := j.src) (tmp := j.tmp) (cfg := cfg) (plan := plan)
-      j.body (wf.bodyOps j hjJ) h0 hs i
+    rw [htgt] at hops
+    have P := exec_inplace (fs0 := cur) (src := j.src) (dst := j.src) (tmp := j.tmp) (cfg := cfg) (plan := plan)
+      j.early j.body (wf.bodyOps j hjJ) h0 hs i
     -- per-event facts of this job
-    have hshapeW : ∀ ev ∈ (exec cfg plan i { fs := cur } (inplaceOps j.src j.tmp j.body)).2,
+    have hshapeW : ∀ ev ∈ (exec cfg plan i { fs := cur } (inplaceOps j.early j.src j.src j.tmp j.body)).2,
         Whole fs0 J ev.2 := by
       intro ev hm
       rcases P.shape ev hm with hab | ⟨_, hc⟩
@@ -129,14 +188,14 @@ theorem runJobs_post (cfg : Cfg) (plan : Plan) (wf : JobsWF fs0 J) :
       · exact Or.inr ⟨j, hjJ, by rw [Fs.names_append, hn]⟩
     have hnamesC : (cur.set j.src (newContent j.body)).names = fs0.names := by
       rw [Fs.names_set_of_mem hs, hn]
-    have hshapeN : ∀ ev ∈ (exec cfg plan i { fs := cur } (inplaceOps j.src j.tmp j.body)).2,
+    have hshapeN : ∀ ev ∈ (exec cfg plan i { fs := cur } (inplaceOps j.early j.src j.src j.tmp j.body)).2,
         NamesOk fs0 J ev.2 := by
       intro ev hm
       rcases P.shape ev hm with hab | ⟨_, hc⟩
       · exact hnamesAB _ hab
       · rw [hc]; exact Or.inl hnamesC
     have hframe1 : ∀ p, p ≠ j.src → (∀ j' ∈ J, p ≠ j'.tmp) →
-        ∀ ev ∈ (exec cfg plan i { fs := cur } (inplaceOps j.src j.tmp j.body)).2,
+        ∀ ev ∈ (exec cfg plan i { fs := cur } (inplaceOps j.early j.src j.src j.tmp j.body)).2,
           ev.2.get? p = cur.get? p := by
       intro p hps hpt ev hm
       rcases P.shape ev hm with hab | ⟨_, hc⟩
@@ -145,17 +204,14 @@ theorem runJobs_post (cfg : Cfg) (plan : Plan) (wf : JobsWF fs0 J) :
         · rw [h, Fs.get?_append_other (hpt j hjJ)]
       · rw [hc, Fs.get?_set_other hps]
     simp only [runJobs, runJob, hops]
-    cases hout : (exec cfg plan i { fs := cur } (inplaceOps j.src j.tmp j.body)).1 with
+    cases hout : (exec cfg plan i { fs := cur } (inplaceOps j.early j.src j.src j.tmp j.body)).1 with
     | ok =>
       simp only []
       have hfin := P.ok hout
       have hw' : Whole fs0 J (cur.set j.src (newContent j.body)) := whole_C hjJ hw
-      have Q := ih hsub' hnd.2 (i + (inplaceOps j.src j.tmp j.body).length)
+      have Q := ih hsub' (i + (inplaceOps j.early j.src j.src j.tmp j.body).length)
         (cur.set j.src (newContent j.body)) hw' hnamesC
       rw [hfin]
-      have hsrc_not_in : ∀ j' ∈ js, j.src ≠ j'.src := by
-        intro j' hj' he
-        exact hnd.1 (List.mem_map.mpr ⟨j', hj', he.symm⟩)
       have htmp_ne : ∀ j' ∈ J, j.src ≠ j'.tmp := by
         intro j' hj' he
         have := wf.tmpFresh j' hj'
@@ -184,24 +240,45 @@ theorem runJobs_post (cfg : Cfg) (plan : Plan) (wf : JobsWF fs0 J) :
           have := Q.ok ho
           rw [final_append, hfin]
           refine ⟨this.1, ?_⟩
-          intro j' hj'
-          rcases List.mem_cons.mp hj' with rfl | hj'
-          · -- the later jobs do not touch this source
-            rcases final_mem_or (cur.set j'.src (newContent j'.body))
-                (runJobs cfg plan (i + (inplaceOps j'.src j'.tmp j'.body).length)
-                  (cur.set j'.src (newContent j'.body)) js).2 with h | ⟨ev, hm, he⟩
-            · rw [h]; exact Fs.get?_set_self
-            · rw [← he, Q.frame j'.src hsrc_not_in htmp_ne ev hm]; exact Fs.get?_set_self
-          · exact this.2 j' hj'
+          intro p j' hj'
+          rw [lastJob_cons] at hj'
+          cases hl : lastJob js p with
+          | some x =>
+            rw [hl] at hj'
+            cases hj'
+            exact this.2 p _ hl
+          | none =>
+            rw [hl] at hj'
+            by_cases hp : (j.src == p) = true
+            · simp only [hp, if_true, Option.some.injEq] at hj'
+              subst hj'
+              have hp' : j.src = p := by simpa using hp
+              subst hp'
+              -- the later jobs do not touch this source
+              rcases final_mem_or (cur.set j.src (newContent j.body))
+                  (runJobs cfg plan (i + (inplaceOps j.early j.src j.src j.tmp j.body).length)
+                    (cur.set j.src (newContent j.body)) js).2 with h | ⟨ev, hm, he⟩
+              · rw [h]; exact Fs.get?_set_self
+              · rw [← he, Q.frame j.src (lastJob_none hl) htmp_ne ev hm]; exact Fs.get?_set_self
+            · simp [hp] at hj'
         raised := by
-          intro i' hr hc hp
+          intro i' hr hc hb ht hrm
           rw [final_append, hfin]
-          exact Q.raised i' hr hc hp
+          exact Q.raised i' hr hc hb ht (fun ev hm => hrm ev (List.mem_append_right _ hm))
+        raisedNames := by
+          intro i' hr
+          rw [final_append, hfin]
+          exact Q.raisedNames i' hr
         killed := by
           intro i' hk
           rw [final_append, hfin]
           exact Q.killed i' hk
-        raisedAt := Q.raisedAt }
+        raisedAt := Q.raisedAt
+        rmNeeds2 := by
+          intro ev hm he
+          rcases List.mem_append.mp hm with h | h
+          · exact P.rmNeeds2 ev h he
+          · exact Q.rmNeeds2 ev h he }
     | raised i' =>
       simp only []
       exact {
@@ -212,11 +289,15 @@ theorem runJobs_post (cfg : Cfg) (plan : Plan) (wf : JobsWF fs0 J) :
           exact hframe1 p (hps j List.mem_cons_self) hpt ev hm
         ok := by intro h; cases h
         raised := by
-          intro i'' h hc hp
+          intro i'' h hc hb ht hrm
           cases h
-          rw [P.raised i' hout hc hp]; exact hn
+          rw [P.raised i' hout hc hb ht hrm]; exact hn
+        raisedNames := by
+          intro i'' h
+          exact hnamesAB _ (P.raisedAB i' hout)
         killed := by intro i'' h; cases h
-        raisedAt := by intro i'' h; cases h; exact P.raisedAt i' hout }
+        raisedAt := by intro i'' h; cases h; exact P.raisedAt i' hout
+        rmNeeds2 := P.rmNeeds2 }
     | killed i' =>
       simp only []
       exact {
@@ -227,9 +308,11 @@ theorem runJobs_post (cfg : Cfg) (plan : Plan) (wf : JobsWF fs0 J) :
           exact hframe1 p (hps j List.mem_cons_self) hpt ev hm
         ok := by intro h; cases h
         raised := by intro i'' h; cases h
+        raisedNames := by intro i'' h; cases h
         killed := by
           intro i'' h
           exact hnamesAB _ (P.killed i' hout)
-        raisedAt := by intro i'' h; cases h }
+        raisedAt := by intro i'' h; cases h
+        rmNeeds2 := P.rmNeeds2 }
 
 end Pypyr.FsRewrite
